@@ -16,6 +16,13 @@ fp("dask/array/core.py", "concatenate", "stack", "block")
 fp("dask/array/creation.py", "repeat", "tile", "pad", "pad_edge", "pad_reuse", "pad_stats", "get_pad_shapes_chunks", "expand_pad_value")
 fp("dask/array/routines.py", "flip", "rot90", "roll", "diff", "tril", "triu", "take", "squeeze", "expand_dims", "transpose", "swapaxes")
 fp("dask/array/_shuffle.py", "shuffle", "_shuffle", "_calculate_new_chunksizes", "_rechunk_other_dimensions")
+# C24 review round: functions newly inside the model
+fp("dask/array/_shuffle.py", "_validate_indexer", "concatenate_arrays", "_getitem")
+fp("dask/array/slicing.py", "take")
+fp("dask/array/core.py", "broadcast_to")
+fp("dask/array/routines.py", "_take_dask_array_from_numpy")
+fp("dask/array/numpy_compat.py", "moveaxis")
+fp("dask/array/creation.py", "_pad_reuse_pieces", "tri")
 fp("dask/array/routines.py", "_bincount_agg", "bincount", "digitize", "_searchsorted_block", "searchsorted", "_block_hist",
    "histogram", "histogram2d", "histogramdd", "_unique_internal", "unique", "isin", "_isin_kernel", "argwhere", "nonzero",
    "flatnonzero", "count_nonzero", "unravel_index", "ravel_multi_index", "aligned_coarsen_chunks", "coarsen", "compress", "extract")
